@@ -53,11 +53,28 @@ def _run_task(task):
     return res
 
 
+def fit_budget(tasks, wall_minutes):
+    """scale the time boxes so that the whole task list fits the wall budget on NCPU workers (tasks that
+    exhaust their family finish early; the others report exhaustive=false)"""
+    total = sum(t.get("timebox", 0) for t in tasks)
+    budget = wall_minutes * 60.0 * NCPU * 0.9
+    if total > budget:
+        f = budget / total
+        for t in tasks:
+            t["timebox"] = max(5.0, t["timebox"] * f)
+    return tasks
+
+
 def run_tasks(tasks, deadline_s=None):
     """run tasks on a process pool; returns list of results"""
     out = []
     if not tasks:
         return out
+    if os.environ.get("VERIF_TIER_NOW") == "thorough":
+        fit_budget(tasks, float(os.environ.get("VERIF_THOROUGH_MIN", "15")))
+    else:
+        fit_budget(tasks, float(os.environ.get("VERIF_QUICK_MIN", "2.5")))
+    tasks = sorted(tasks, key=lambda t: -t.get("timebox", 0))     # long boxes first: short tail
     ctx = mp.get_context("fork")
     with ctx.Pool(min(NCPU, len(tasks)), maxtasksperchild=4) as pool:
         for r in pool.imap_unordered(_run_task, tasks, chunksize=1):
